@@ -25,6 +25,9 @@ THEOREMS = [
     "Mashu.Subst.pySubscript_eq",
     "Mashu.Subst.shallow_annotated_keeps_variable",
     "Mashu.Subst.subst_annotated_recursive_pinned",
+    "Mashu.Subst.bind_follows_own_list",
+    "Mashu.Subst.base_order_swaps_arguments",
+    "Mashu.Subst.params_follow_own_list_pinned",
 ]
 RULE = (
     "subset of the 14 customization levels for one field (2 unkeyed field levels + 4 keyed levels x 3 type keys), each level registers a marker function for both directions, "
@@ -321,10 +324,53 @@ def run_subst(ctx, n):
             ctx.disagreement(case, m.get("impl"), got, "substitute_type_params")
 
 
+def run_bindparams(ctx, n):
+    """generic dataclasses whose own parameter list (Generic[...]) orders the type variables differently from their
+    first appearance in the bases: resolve_type_params must bind the i-th argument to the i-th OWN parameter"""
+    import itertools
+    import types as _types
+
+    from mashumaro.core.meta.helpers import collect_type_params, get_orig_bases, resolve_type_params
+
+    rng = ctx.rng
+    lines, metas = [], []
+    perms = [p for k in (1, 2, 3) for p in itertools.permutations(range(k))]
+    for i in range(n):
+        own = list(rng.choice(perms))                 # order of the variables in Generic[...]
+        k = len(own)
+        basep = list(rng.choice([p for p in perms if len(p) == k]))   # order in which the parent is subscripted
+        tvs = [_TVS[j] for j in range(k)]
+        base = _types.new_class(f"BP10_{i}_B", (typing.Generic[tuple(tvs)],), exec_body=lambda ns: ns.update({"__annotations__": {f"m{j}": tvs[j] for j in range(k)}}))
+        base = dataclasses.dataclass(base)
+        child = _types.new_class(f"BP10_{i}_C", (base[tuple(tvs[j] for j in basep)], typing.Generic[tuple(tvs[j] for j in own)]), exec_body=lambda ns: ns.update({"__annotations__": {}}))
+        child = dataclasses.dataclass(child)
+        args = [int, str, bytes][:k]
+        case = {"bindparams": {"own": own, "parent_subscript": basep}}
+        ctx.count(case, own != basep, kind="bindparams")
+        collected = []
+        for b in get_orig_bases(child):
+            for tp in collect_type_params(b):
+                if tp not in collected:
+                    collected.append(tp)
+        got = resolve_type_params(child, tuple(args))[child]
+        # statement: the i-th argument binds the i-th own parameter
+        want = {tvs[own[j]]: args[j] for j in range(k)}
+        if got != want:
+            ctx.violation(case, {"bound": {str(a): str(b) for a, b in got.items()}}, {"expected": {str(a): str(b) for a, b in want.items()}},
+                          "the arguments of a generic class bind its own parameters in order", lambda f: False)
+        lines.append({"op": "bindparams", "own": own, "collected": [_TVS.index(t) for t in collected]})
+        metas.append((case, [_TVS.index(t) for t in got]))
+    outs = ctx.model(lines) if lines else []
+    for (case, order), mo in zip(metas, outs or []):
+        if mo.get("order") != order:
+            ctx.disagreement(case, mo.get("order"), order, "resolve_type_params order")
+
+
 def run(ctx):
     ctx.rule = RULE
     ctx.lean_check("Mashu.Props.C10", THEOREMS, extra_targets=["Mashu.Dispatch"])
     run_subst(ctx, 600 if ctx.tier == "quick" else 8000)
+    run_bindparams(ctx, 120 if ctx.tier == "quick" else 1500)
     rng = ctx.rng
     if ctx.tier == "quick":
         n = 2500
@@ -354,6 +400,9 @@ def run(ctx):
 
 def replay(ctx, body):
     c = body["case"]
+    if "bindparams" in c:
+        run_bindparams(ctx, 200)
+        return ctx.finish()
     if "subst" in c:
         from mashumaro.core.meta.helpers import substitute_type_params
 
